@@ -1,29 +1,30 @@
 """C04 — Rabin(1) region (nested fixpoint) and duality of CPre."""
 from ovc import harness, shapes
 from contracts import gr1_rabin as cr
+from contracts import gr1_duality as gd
 
 LEVEL = 'proof'
 TRUSTED = [
     'SpecBDD = assumed contract of dd (validated differentially, not proved)',
     'CPython executes the re-extracted function text (only rewrite: loop cuts); z3 soundness',
     'theorem T2 (dual of Kesten-Piterman-Pnueli): the Rabin(1) nested fixpoint over an exact, monotone CPre is the winning region -- CITED, NOT PROVED',
-    'mu-calculus de Morgan duality of the two three-level fixpoint formulas given CPre duality -- CITED, NOT PROVED here (only CPre duality itself is proved on the real step)',
+    'complementarity of the Streett region and the dual Rabin region: PROVED per shape as a lemma over the two solver contracts and CPre duality (contracts/gr1_duality.py: ghost fixpoint sets, explicit schema instances, all three levels); no omega code runs in that lemma',
     'Knaster-Tarski for the ghost fixpoint sets; spec functions; explicit-state evaluator (replay only)',
 ]
 ASSUMPTIONS = [
     'partial correctness only',
     'A7 declaration-shape uniformity; (#holds,#goals) enumerated',
     'callees by contract: fixpoint.step, _attractor_inside, _cycle_inside',
-    'complementarity of the Streett and Rabin regions follows from: C01 contract, this contract, CPre duality (proved), and the cited fixpoint duality lemma',
+    'complementarity of the Streett and Rabin regions follows from: C01 contract, this contract, CPre duality (proved on the real step) and the duality lemma (proved over the contracts, per shape)',
 ]
 EXPLANATION = (
     'solve_rabin_game, _cycle_inside and _attractor_inside are re-extracted with loops cut at invariants and callees stubbed by contract; '
     'each level is proved to be the least / greatest fixpoint of its operator for all actions and liveness predicates. The one-step duality '
     '~CPre(~Q) == CPre of the dual game is proved on the real fixpoint.step for every mode.')
 LEVEL_TEXT = ('Deductive proof per shape/mode/(#holds,#goals), all actions and liveness predicates: zk[-1] equals the Rabin(1) nested fixpoint; '
-              'CPre duality on the real step. Fixpoint<=>winning region (T2) and the formula-level fixpoint duality are cited lemmas.')
+              'CPre duality on the real step. Complementarity of the two regions is proved as a lemma over the two contracts. Fixpoint<=>winning region (T2) is cited.')
 DESIGN_REF = 'DESIGN.md section 3, C04'
-LEVEL_NOTE = 'Trusted: SpecBDD, z3, Knaster-Tarski, T2, formula-level mu/nu duality. Bounded parameters: shape, liveness counts.'
+LEVEL_NOTE = 'Trusted: SpecBDD, z3, Knaster-Tarski, T2. Bounded parameters: shape, liveness counts.'
 TECHNIQUE = 'contracts + inductive invariants on the real Rabin solver loops, ghost fixpoints with explicit schema instances, z3'
 
 
@@ -51,6 +52,9 @@ def families(tier, seed):
                 out.append(_mk('_cycle_inside', sh, moore, plus_one, 1, ng))
             for nh, ng in counts:
                 out.append(_mk('solve_rabin_game', sh, moore, plus_one, nh, ng))
+                params = dict(moore=moore, plus_one=plus_one, n_holds=nh, n_goals=ng)
+                out.append(dict(name=f'duality lemma holds={nh} goals={ng} {shapes.mode_name(moore, plus_one)} {sh.name}',
+                                run=(lambda sh=sh, params=params: harness.verify(gd.h_duality, sh, params)), label='per-shape'))
     return out
 
 
